@@ -81,7 +81,9 @@ class Work:
         with self._lock:            # called from worker threads
             self.n += 1
             n = self.n
-        return os.path.join(self.dir, '%s%d' % (prefix, n))
+        # data directories and dump folders with a blank and a non-ASCII character in their name now and then (paths are not inputs)
+        odd = ' \u00e9' if prefix in ('dd', 'out', 'cl') and n % 4 == 1 and os.environ.get('RBP_VERIF_NO_AMBIENT') is None else ''
+        return os.path.join(self.dir, '%s%d%s' % (prefix, n, odd))
 
     def mk(self, prefix='d'):
         p = self.sub(prefix)
@@ -182,7 +184,16 @@ def run_parser(datadir, cb, dump=None, coin=None, start=None, end=None, verify=F
     bare = False
     if os.environ.get('RBP_VERIF_NO_AMBIENT') is None and amb % 11 == 5 and fsize is None and nofile is None and abort_at is None:
         bare = True            # the process environment is no input either: empty environment, uid without passwd entry
-    args = [BIN, '-d', datadir]
+    cwd = None
+    dd_arg, dump_arg = datadir, dump
+    if os.environ.get('RBP_VERIF_NO_AMBIENT') is None and amb % 7 == 3 and dump and os.path.isabs(str(datadir)) and os.path.isabs(dump):
+        # relative paths, resolved against the working directory
+        cwd = os.path.commonpath([str(datadir), dump])
+        if os.path.isdir(cwd) and cwd not in (str(datadir), dump):
+            dd_arg, dump_arg = os.path.relpath(str(datadir), cwd), os.path.relpath(dump, cwd)
+        else:
+            cwd = None
+    args = [BIN, '-d', dd_arg]
     if coin:
         args += ['-c', coin]
     if start is not None:
@@ -198,7 +209,7 @@ def run_parser(datadir, cb, dump=None, coin=None, start=None, end=None, verify=F
         assert dump is not None
         if mkdump:
             os.makedirs(dump, exist_ok=True)
-        args += [dump]
+        args += [dump_arg]
     e = dict(os.environ)
     for k in list(e):
         if k.startswith('RBP_VERIF_'):
@@ -239,9 +250,23 @@ def run_parser(datadir, cb, dump=None, coin=None, start=None, end=None, verify=F
         try:
             # preexec_fn forces fork(); without it Python can use vfork/posix_spawn, which matters when the parent is large
             need_pre = fsize is not None or nofile is not None or abort_at is not None
-            r = subprocess.run(args, env=e, stdout=subprocess.PIPE, stderr=subprocess.PIPE,
-                               preexec_fn=pre if need_pre else None, timeout=timeout, **ids)
-            rc, out, err = r.returncode, r.stdout, r.stderr
+            to_file = None
+            if os.environ.get('RBP_VERIF_NO_AMBIENT') is None and amb % 5 == 2 and fsize is None:
+                # (not under a file size limit: the limit would apply to this file as well)
+                # standard output is a regular file instead of a pipe (block buffering instead of none changes nothing)
+                os.makedirs(WORKROOT, exist_ok=True)
+                to_file = open(os.path.join(WORKROOT, 'stdout-%d-%d' % (os.getpid(), amb)), 'w+b')
+            try:
+                r = subprocess.run(args, env=e, stdout=to_file or subprocess.PIPE, stderr=subprocess.PIPE, cwd=cwd,
+                                   preexec_fn=pre if need_pre else None, timeout=timeout, **ids)
+                rc, out, err = r.returncode, r.stdout, r.stderr
+                if to_file:
+                    to_file.seek(0)
+                    out = to_file.read()
+            finally:
+                if to_file:
+                    to_file.close()
+                    os.unlink(to_file.name)
             break
         except subprocess.TimeoutExpired as ex:
             # a run that does not finish is reported only if it does not finish twice (a stalled box is not a verdict)
